@@ -365,3 +365,5 @@ LEVEL_NOTE = ("FILE LEVEL (Props/C13File.lean): the reader builds its sections l
               "counter-examples: stale suffix, X:1 clash, blank mnemonic with a period before the colon, white-space-only mnemonic, changed "
               "mnemonic_transforms. Known finding: an original mnemonic of the form X:<digits> next to >= 2 items named X collides with a generated suffix (R10a); carved "
               "out by the NoSuffixClash hypothesis = the classifier. LASFile[...] and file round trip are covered by oracle + correspondence only.")
+
+RULE = RULE + ("; ALSO (fifth session): stream `curve-api` (append / insert / delete / REPLACE of curves through the LASFile API on fresh and read files, oracle after every operation, LASFile[name]); directed `stale-replace` sequences")
